@@ -5,4 +5,5 @@
 broadcast use {fax::g, sax::ix_ok_usize, sax::ix_val_usize, sax::ix_upd_usize, vstd::std_specs::hash::group_hash_axioms, kax::char_key_model};
 //@include ../common/helpers.rs
 //@include body.rs
+//@include laws.rs
 //@include ../common/tail.rs
